@@ -68,6 +68,24 @@ MUTANTS = [
      "            lambda();\n            step_.fetch_add(1, std::memory_order_acq_rel);\n"
      "            waiting_.store(0, std::memory_order_release);",
      "the arrival counter is reset after the generation was released (both wait() and wait_yield())"),
+    ("c11_m5_spin_wait_action_after_publish", "C11", "tlx/thread_barrier_spin.hpp",
+     '            // step other generation counters.\n            lambda();\n            // the following statement releases all threads from busy waiting.\n            step_.fetch_add(1, std::memory_order_acq_rel);\n        }\n        else\n        {\n            // spin lock awaiting the last thread to increment the step counter.\n            while (step_.load(std::memory_order_acquire) == this_step)\n            {\n                // busy spinning loop\n',
+     '            step_.fetch_add(1, std::memory_order_acq_rel);\n            lambda();\n        }\n        else\n        {\n            // spin lock awaiting the last thread to increment the step counter.\n            while (step_.load(std::memory_order_acquire) == this_step)\n            {\n                // busy spinning loop\n',
+     "seeded c11c-B: wait() only: step_.fetch_add(1) before lambda(): a spinner can leave the generation before the "
+     "action has ended"),
+    ("c11_m6_spin_wait_yield_action_after_publish", "C11", "tlx/thread_barrier_spin.hpp",
+     '            // step other generation counters.\n            lambda();\n            // the following statement releases all threads from busy waiting.\n            step_.fetch_add(1, std::memory_order_acq_rel);\n        }\n        else\n        {\n            // spin lock awaiting the last thread to increment the step counter.\n            while (step_.load(std::memory_order_acquire) == this_step)\n            {\n                std::this_thread::yield();\n',
+     '            step_.fetch_add(1, std::memory_order_acq_rel);\n            lambda();\n        }\n        else\n        {\n            // spin lock awaiting the last thread to increment the step counter.\n            while (step_.load(std::memory_order_acquire) == this_step)\n            {\n                std::this_thread::yield();\n',
+     "the same in wait_yield() only"),
+    ("c11_m7_mutex_barrier_action_outside_lock", "C11", "tlx/thread_barrier_mutex.hpp",
+     "            lambda();\n            cv_.notify_all();\n",
+     "            cv_.notify_all();\n            lock.unlock();\n            lambda();\n",
+     "the mutex barrier notifies and unlocks before it runs the action"),
+    ("c11_m8_signal_n_notify_only_from_zero", "C11", "tlx/semaphore.hpp",
+     "        size_t res = (value_ += delta);\n        cv_.notify_all();",
+     "        const bool was_exhausted = (value_ == 0);\n        size_t res = (value_ += delta);\n"
+     "        if (was_exhausted)\n            cv_.notify_all();",
+     "seeded c11c-A: signal(n) notifies only if value_ was 0: a waiter that blocked at a non-zero value is stranded"),
 ]
 
 
